@@ -48,15 +48,15 @@ fn n_values(len: usize) -> Vec<usize> {
 }
 
 pub fn run(_tier: &str, rep: &mut Report) {
-    rep.bounds.insert("rule".into(), "sources {\"\", \"a\", \"aé\", \"é€😊\", 9-byte ASCII} as str and [u8]; every lexer position reachable by next() (every char / byte boundary); n in {0..=len+2} U {usize::MAX-len-2..=usize::MAX} U {2^63-1, 2^63, 2^63+1, usize::MAX/2, 2^32}. Oracle: bump(n) returns normally iff end+n <= len in unbounded arithmetic and (str) lands on a char boundary, otherwise it panics; after BOTH outcomes span() is a valid range on boundaries (checked numerically before slice()/remainder() are called). Non-trivial = the expected outcome is a panic or end+n is within +-1 of len.".into());
+    rep.bounds.insert("rule".into(), "sources {\"\", \"a\", \"aé\", \"é€😊\", 9-byte ASCII} as str and [u8], ordinary and partial lexers; every lexer position reachable by next() (every char / byte boundary); n in {0..=len+2} U {usize::MAX-len-2..=usize::MAX} U {2^63-1, 2^63, 2^63+1, usize::MAX/2, 2^32}. Oracle: bump(n) returns normally iff end+n <= len in unbounded arithmetic and (str) lands on a char boundary, otherwise it panics; after BOTH outcomes span() is a valid range on boundaries (checked numerically before slice()/remainder() are called). Non-trivial = the expected outcome is a panic or end+n is within +-1 of len.".into());
     let sources: [&str; 5] = ["", "a", "aé", "é€😊", "abcdefghi"];
     std::panic::set_hook(Box::new(|_| {}));
     for src in sources {
         // ---------------- str
         let positions: Vec<usize> = (0..=src.len()).filter(|&i| src.is_char_boundary(i)).collect();
         for (k, &pos) in positions.iter().enumerate() {
-            for n in n_values(src.len()) {
-                let mut lex: Lexer<CS> = Lexer::new(src);
+            for (n, partial) in n_values(src.len()).into_iter().flat_map(|n| [(n, false), (n, true)]) {
+                let mut lex: Lexer<CS> = if partial { Lexer::new_partial(src) } else { Lexer::new(src) };
                 for _ in 0..k {
                     lex.next();
                 }
@@ -64,7 +64,7 @@ pub fn run(_tier: &str, rep: &mut Report) {
                 debug_assert_eq!(end0, pos);
                 let want_ok = end0.checked_add(n).map_or(false, |e| e <= src.len() && src.is_char_boundary(e));
                 let r = catch_unwind(AssertUnwindSafe(|| lex.bump(n)));
-                check(rep, "str", src.as_bytes(), pos, n, want_ok, r.is_ok(), lex.span().start, lex.span().end, |i| src.is_char_boundary(i), || {
+                check(rep, if partial { "str (partial lexer)" } else { "str" }, src.as_bytes(), pos, n, want_ok, r.is_ok(), lex.span().start, lex.span().end, |i| src.is_char_boundary(i), || {
                     let sp = lex.span();
                     lex.slice().len() == sp.end - sp.start && lex.remainder().len() == src.len() - sp.end
                 });
@@ -73,15 +73,15 @@ pub fn run(_tier: &str, rep: &mut Report) {
         // ---------------- bytes
         let b = src.as_bytes();
         for pos in 0..=b.len() {
-            for n in n_values(b.len()) {
-                let mut lex: Lexer<CB> = Lexer::new(b);
+            for (n, partial) in n_values(b.len()).into_iter().flat_map(|n| [(n, false), (n, true)]) {
+                let mut lex: Lexer<CB> = if partial { Lexer::new_partial(b) } else { Lexer::new(b) };
                 for _ in 0..pos {
                     lex.next();
                 }
                 let end0 = lex.span().end;
                 let want_ok = end0.checked_add(n).map_or(false, |e| e <= b.len());
                 let r = catch_unwind(AssertUnwindSafe(|| lex.bump(n)));
-                check(rep, "[u8]", b, pos, n, want_ok, r.is_ok(), lex.span().start, lex.span().end, |i| i <= b.len(), || {
+                check(rep, if partial { "[u8] (partial lexer)" } else { "[u8]" }, b, pos, n, want_ok, r.is_ok(), lex.span().start, lex.span().end, |i| i <= b.len(), || {
                     let sp = lex.span();
                     lex.slice().len() == sp.end - sp.start && lex.remainder().len() == b.len() - sp.end
                 });
